@@ -31,6 +31,7 @@ type Engine struct {
 	deferArgs map[*ssa.Defer]map[*Act][]Term
 	recCache  map[*ssa.Function]bool
 	ifaceImpl map[string]*ssa.Function
+	modsCache map[*ssa.Function]modsEntry
 	hooks     Hooks
 }
 
@@ -73,7 +74,7 @@ func loadEngine(repo string) (*Engine, error) {
 	prog.Build()
 	e := &Engine{repo: repo, fset: fset, pkgs: pkgs, prog: prog, spkgs: map[string]*ssa.Package{}, sorts: newSorts(),
 		fnIDs: map[*ssa.Function]int{}, globIDs: map[*ssa.Global]int{}, lines: map[string][]string{}, recCache: map[*ssa.Function]bool{},
-		ifaceImpl: map[string]*ssa.Function{}}
+		ifaceImpl: map[string]*ssa.Function{}, modsCache: map[*ssa.Function]modsEntry{}}
 	for i, p := range spkgs {
 		if p != nil {
 			e.spkgs[pkgs[i].PkgPath] = p
@@ -242,7 +243,8 @@ func (e *Engine) resolveInvoke(c *ssa.CallCommon) *ssa.Function {
 		return f
 	}
 	var res *ssa.Function
-	if n, ok := it.(*types.Named); ok && n.Obj().Pkg() != nil && strings.HasPrefix(n.Obj().Pkg().Path(), modulePath) {
+	// only for interfaces declared closed by assumption (A-ENV: every EnvType is a *env.Env)
+	if n, ok := it.(*types.Named); ok && n.Obj().Pkg() != nil && strings.HasPrefix(n.Obj().Pkg().Path(), modulePath) && closedInterfaces[typeStr(it)] {
 		iface := it.Underlying().(*types.Interface)
 		var impls []types.Type
 		for _, p := range e.prog.AllPackages() {
@@ -339,7 +341,7 @@ func (e *Engine) translate(job *Job) *Tr {
 	fn := job.Fn
 	tr := &Tr{eng: e, root: fn, comps: map[string]*Component{}, oblCount: map[string]int{}, panicMode: job.PanicMode, frameMode: job.Frame,
 		initHeap: map[string]*HeapV{}, usedStubs: map[string]bool{}, inlined: map[string]bool{}, havocked: map[string]bool{},
-		declared: map[string]bool{}, unfolded: map[string]bool{}, usedContracts: map[string]bool{}, usedAssumed: map[string]bool{}, clauseFilter: job.ClauseFilter, isRoot: job.IsRoot, typeInvMode: job.TypeInv, lockMode: job.LockMode}
+		declared: map[string]bool{}, unfolded: map[string]bool{}, usedContracts: map[string]bool{}, usedAssumed: map[string]bool{}, atDone: map[string]bool{}, clauseFilter: job.ClauseFilter, isRoot: job.IsRoot, typeInvMode: job.TypeInv, lockMode: job.LockMode}
 	tr.inlineBudget = 200 - 2*len(fn.Blocks)
 	if tr.inlineBudget < 0 {
 		tr.inlineBudget = 0
@@ -398,4 +400,17 @@ func (tr *Tr) assumePreExisting(st *State, t types.Type, x Term) {
 	case *types.Interface:
 		// containers inside interface values: constrained where they are projected (assumeLoadedPreExisting)
 	}
+}
+
+var closedInterfaces = map[string]bool{"types.EnvType": true}
+
+func (e *Engine) namedType(pkgName, name string) types.Type {
+	for _, p := range e.prog.AllPackages() {
+		if p.Pkg.Name() == pkgName && strings.HasPrefix(p.Pkg.Path(), modulePath) {
+			if o := p.Pkg.Scope().Lookup(name); o != nil {
+				return o.Type()
+			}
+		}
+	}
+	return nil
 }
